@@ -104,10 +104,8 @@ class C17(Base):
                 ops.insert(rng.randrange(len(ops) + 1), "pf")       # prefetch at any point of the history
         if rng.random() < 0.2:
             ops.insert(rng.randrange(len(ops) + 1), "sx")           # a (refused) sync request in between
-        if rng.random() < 0.12:
-            # a pending request is DROPPED (timeout / select!), later requests and polls follow
-            for _ in range(rng.choice([1, 1, 2])):
-                ops.insert(rng.randrange(len(ops) // 2 + 1), "cancel:%d" % rng.randrange(k))
+        # (no `cancel:<c>` ops are generated: the property's quantifier says "no cancellation"; the op stays available for
+        # replays and experiments, and cancellation is exercised under C16 - `xv:`/`xvv:`/`xmm:` - where it is in scope)
         return "cache " + ";".join([header("a", k, needs, end)] + ops)
 
     def gen_fair(self, rng, maxlen, big=False, joined=False):
@@ -372,8 +370,10 @@ class C17(Base):
                     if mode == "s":
                         return "sync request returned Pending"
                     waiting[c] = True
-                    # the source was asked for every newly cached item plus the one that is pending
-                    if dpolls != dpulls + 1:
+                    # the source was asked for every newly cached item, and at most once more (the ask that is pending).
+                    # Not asking at all is within the property ("only when a request needs it" is an upper bound) as long
+                    # as somebody wakes this request - which the lost-wake-up checks below decide
+                    if not (dpulls <= dpolls <= dpulls + 1):
                         return "lazy: Pending poll asked the source %d times for %d new items" % (dpolls, dpulls)
                 else:
                     got = undots(m.group(3) if m.group(2) is not None else m.group(4))
